@@ -26,6 +26,10 @@ pub assume_specification<T, F: FnOnce(T) -> bool>[ Option::<T>::is_some_and ](o:
 pub assume_specification<T, F: FnOnce(T) -> bool>[ Option::<T>::is_none_or ](o: Option<T>, f: F) -> (r: bool)
     requires o.is_some() ==> f.requires((o.unwrap(),)),
     ensures o.is_none() ==> r, o.is_some() ==> f.ensures((o.unwrap(),), r);
+pub assume_specification<T, P: FnOnce(&T) -> bool>[ Option::<T>::filter ](o: Option<T>, p: P) -> (r: Option<T>)
+    requires o.is_some() ==> p.requires((&o.unwrap(),)),
+    ensures o.is_none() ==> r.is_none(),
+            o.is_some() ==> (p.ensures((&o.unwrap(),), true) ==> r == o) && (p.ensures((&o.unwrap(),), false) ==> r.is_none()) && (r.is_none() || r == o);
 // ... and of the Result combinators that vstd does not specify
 pub assume_specification<T, E>[ core::result::Result::<T, E>::unwrap_or ](o: core::result::Result<T, E>, default: T) -> (r: T)
     ensures r == (if (o is Ok) { o->Ok_0 } else { default });
